@@ -135,6 +135,10 @@ def run_instance(prog, db, classmap, cname, con, cargs, budget=6000):
                 why = unjustified_rejection(it, sl, con)
                 if why:
                     kind, detail = 'reject', f'raises {e.kind}: {why}'
+                elif not it.decided and not any(l.startswith(('truth', 'isinstance', 'cmp', 'eq', 'in(')) for l in orc.labels[:orc.pos]):
+                    # nothing about the field *values* was tested on this path: the exception follows from the schema-level choices alone
+                    # (constructor, Maybe / Either / dictionary presence, enumerated flag bits), every one of which is a valid encoding
+                    kind, detail = 'reject', f'raises {e.kind} ({str(e.what)[:80]}) for every value with the schema-valid choices [{orc.describe()[:120] or "none"}]'
             except Mismatch as e:
                 kind, detail = 'mismatch', str(e)[:260]
         except Fail as e:
